@@ -614,13 +614,16 @@ def eval_case(case):
     # ---- score argument
     sc = S.Score([fresh()])
     fps = F.fp_score(sc)
-    ok, usc = call("maximal-total", S.unfold_part_maximal, sc, update_ids=True)
-    if ok:
-        ok_p, paths = call("maximal-total", S.get_paths, fresh(), no_repeats=False, all_repeats=True, ignore_leap_info=True)
-        if ok_p:
-            check_copy(res, "", usc.parts[0], orig_notes, path_visits(paths[0]), True, ctx + " unfold_part_maximal(Score)")
-        if F.fp_score(sc) != fps:
-            res.fail("argument-unchanged", expected="score argument unchanged", observed=F.diff(fps, F.fp_score(sc))[:2], where="unfold_part_maximal[score]", detail=ctx)
+    for il in (True, False):
+        for uid in (True, False):
+            ok, usc = call("maximal-total", S.unfold_part_maximal, sc, update_ids=uid, ignore_leaps=il)
+            if ok:
+                ok_p, paths = call("maximal-total", S.get_paths, fresh(), no_repeats=False, all_repeats=True, ignore_leap_info=il)
+                if ok_p:
+                    check_copy(res, "", usc.parts[0], orig_notes, path_visits(paths[0]), uid,
+                               ctx + " unfold_part_maximal(Score, update_ids=%r, ignore_leaps=%r)" % (uid, il))
+                if F.fp_score(sc) != fps:
+                    res.fail("argument-unchanged", expected="score argument unchanged", observed=F.diff(fps, F.fp_score(sc))[:2], where="unfold_part_maximal[score]", detail=ctx)
     ok, usc = call("minimal-total", S.unfold_part_minimal, sc)
     if ok and F.fp_score(sc) != fps:
         res.fail("argument-unchanged", expected="score argument unchanged", observed=F.diff(fps, F.fp_score(sc))[:2], where="unfold_part_minimal[score]", detail=ctx)
